@@ -143,6 +143,13 @@ class FrameItem(EFLRItem):
             If direction cannot be determined, it is assigned to None.
         """
 
+        if index_data.shape[0] < 2:
+            return None, None  # a single row: neither spacing nor direction can be determined
+
+        if np.issubdtype(index_data.dtype, np.integer):
+            # differences of unsigned or narrow integers would wrap around; compute them in a wide signed type
+            index_data = index_data.astype(np.int64)
+
         diff = np.diff(index_data)
         diff_unique = np.unique(diff)
 
